@@ -365,6 +365,8 @@ class Stage:
             for e in v:
                 self.register_variable(e, scale=scale, domain=domain)
             return
+        if grid not in ['', 'control', 'states', 'bspline']:
+            raise Exception("Invalid argument: grid must be '', 'control', 'states' or 'bspline', got " + repr(grid))
         self._meta[v] = merge_meta(meta, get_meta())
         self._scale[v] = self._parse_scale(v, scale)
         self._catalog[v] = {"type": 'variables', "sparsity": v.sparsity(), "grid": grid, "include_last": include_last, "order": order, "domain": domain}
@@ -439,6 +441,8 @@ class Stage:
             for e in p:
                 self.register_parameter(e, scale=scale)
             return
+        if grid not in ['', 'control', 'bspline']:
+            raise Exception("Invalid argument: grid must be '', 'control' or 'bspline', got " + repr(grid))
         self._meta[p] = merge_meta(meta, get_meta())
         self._scale[p] = self._parse_scale(p, scale)
         self._catalog[p] = {"type": 'variables', "sparsity": p.sparsity(), "grid": grid, "include_last": include_last, "order": order}
@@ -691,6 +695,8 @@ class Stage:
                          with each term of the sum weighted with the time duration of the interval.
                          Note that the final state is not included in this definition
         """
+        if grid not in ['inf', 'control']:
+            raise Exception("Invalid argument: grid must be 'inf' or 'control', got " + repr(grid))
         if grid=='inf':
             return self._create_placeholder_expr(expr, 'integral')
         else:
@@ -708,6 +714,8 @@ class Stage:
                 control: the integral is evaluated as a sum on the control grid (start of each control interval)
                          Note that the final state is not included in this definition
         """
+        if grid not in ['control']:
+            raise Exception("Invalid argument: grid must be 'control', got " + repr(grid))
         if include_last:
             return self._create_placeholder_expr(expr, 'sum_control_plus')
         else:
